@@ -32,7 +32,13 @@ fn model_seq(lean: &mut Lean) -> u64 {
     st.split("seqno=").nth(1).and_then(|s| s.split(' ').next()).and_then(|s| s.parse().ok()).unwrap_or(0)
 }
 
-fn open(dir: &Path) -> fjall::Result<Database> { Database::builder(dir).worker_threads_unchecked(0).open() }
+fn open(dir: &Path) -> Result<Database, String> {
+    match std::panic::catch_unwind(|| Database::builder(dir).worker_threads_unchecked(0).open()) {
+        Ok(Ok(d)) => Ok(d),
+        Ok(Err(e)) => Err(format!("{e:?}")),
+        Err(_) => Err("recovery PANICKED".into()),
+    }
+}
 
 fn dump_ks(ks: &Keyspace) -> Result<Map, String> {
     let mut m = Map::new();
@@ -221,6 +227,30 @@ fn run_case(seed: u64, lean: &mut Lean, hist: &mut BTreeMap<String, u64>, sample
                 let n = *r.pick(&ns);
                 let id = live[n].id;
                 match r.below(10) {
+                    0 if r.chance(1, 3) => {
+                        // a key the API refuses (empty, or longer than 65535 bytes): the call may panic or return an error,
+                        // but it must leave no trace - the session goes on, and so does every later recovery
+                        let h = live[n].handle.clone();
+                        let which = r.below(4);
+                        let what = ["insert with an empty key", "remove with an empty key", "insert with a 65536-byte key", "remove with a 65536-byte key"][which as usize];
+                        let res = std::panic::catch_unwind(std::panic::AssertUnwindSafe(move || match which { 0 => h.insert("", "v"), 1 => h.remove(""), 2 => h.insert(vec![b'x'; 65536], "v"), _ => h.remove(vec![b'x'; 65536]) }));
+                        if let Ok(Ok(())) = res { fail!("impl-vs-oracle", "{what} was accepted"); }
+                        trace.push(format!("rejected: {what} on {n}"));
+                        *hist.entry("rejected-invalid-key".into()).or_insert(0) += 1;
+                        // the session is still usable
+                        let (k, v) = (gen_key(&mut r), gen_val(&mut r));
+                        if let Err(e) = live[n].handle.insert(k.clone(), v.clone()) { fail!("impl-vs-oracle", "after the rejected {what} the next insert fails: {e:?}"); }
+                        refm.get_mut(n).unwrap().insert(k.clone(), v.clone());
+                        lean.ask(&format!("db.write {id}:P:{}:{}", hex(&k), hex(&v)));
+                        trace.push(format!("insert {n} {} [{}B]", hex(&k), v.len()));
+                        // and so is the directory: a crash image taken now must open
+                        let img = dir.with_extension("rejimg");
+                        let _ = std::fs::remove_dir_all(&img);
+                        copy_dir_sparse(&dir, &img);
+                        let r2 = open(&img).map(|_| ());
+                        let _ = std::fs::remove_dir_all(&img);
+                        if let Err(e) = r2 { fail!("impl-vs-oracle", "after the rejected {what} the directory no longer opens: {e}"); }
+                    }
                     0..=5 => {
                         let (k, v) = (gen_key(&mut r), gen_val(&mut r));
                         if let Err(e) = live[n].handle.insert(k.clone(), v.clone()) { fail!("impl-vs-oracle", "insert failed: {e:?}"); }
@@ -553,7 +583,7 @@ fn real_rotation_probe() -> Option<Failure> {
     let img = scratch.join("crash");
     copy_dir_sparse(&dir, &img);
     let got = (|| -> Result<(bool, usize), String> {
-        let d = open(&img).map_err(|e| format!("{e:?}"))?;
+        let d = open(&img)?;
         let k = d.keyspace("a", KeyspaceCreateOptions::default).map_err(|e| format!("{e:?}"))?;
         let late = k.get("late").map_err(|e| format!("{e:?}"))?.is_some();
         let mut bigs = 0; for i in 0..66u32 { if k.get(format!("big-{i:03}")).map_err(|e| format!("{e:?}"))?.is_some() { bigs += 1; } }
